@@ -1406,8 +1406,9 @@ def filename_to_suite_name_parts(filename):
         # will still work in other cases
 
         suiteNameParts = []
+        anchor = Path(filename).anchor
         for part in reversed(filenameParts[i:-1]):
-            if '.' in part:
+            if '.' in part or part == anchor:
                 break
             suiteNameParts.insert(0, part)
 
